@@ -28,7 +28,9 @@ func StdOps(conf *cfg.Config, r *rand.Rand, rich bool) []probe.Op {
 		case 0:
 			ops = append(ops, probe.Op{Op: "setenv", Name: fmt.Sprintf("VERIF_ENVI_%d", i), Val: fmt.Sprint(r.Intn(70000))})
 		case 1:
-			ops = append(ops, probe.Op{Op: "setenv", Name: fmt.Sprintf("VERIF_ENVI_%d", i), Val: "12x"})
+			// hostile numerals: envInt is documented as strconv.Atoi (decimal, optional sign, nothing else)
+			hostile := []string{"12x", "010", "0080", "-012", "+5", "0x10", "0b11", "0o17", "1_000", " 7", "7 ", "", "1e3", "-0", "99999999999999999999", "９", "0"}
+			ops = append(ops, probe.Op{Op: "setenv", Name: fmt.Sprintf("VERIF_ENVI_%d", i), Val: hostile[r.Intn(len(hostile))]})
 		default:
 			ops = append(ops, probe.Op{Op: "unsetenv", Name: fmt.Sprintf("VERIF_ENVI_%d", i)})
 		}
